@@ -1,4 +1,5 @@
 import Amgcl.Proofs.Primitives
+import Amgcl.Proofs.BlockValue
 /-!
 # C07 — backend vector and matrix-vector primitives equal their algebraic definitions
 
@@ -12,8 +13,13 @@ Only property theorems live here (helper lemmas: `Amgcl/Proofs/Primitives.lean`)
 * inner product   : the Kahan-compensated serial loop and the per-thread chunked loop both equal `Σ xᵢ·conj yᵢ`
   for every thread count `nt ≥ 1`; conjugate-linearity in the second argument.
 
-Not proved here (see DESIGN.md §3 C07): block-valued / complex instantiations are tied in through the
-correspondence harness and the realification theorems of C13; Eigen / block_crs backends by correspondence only.
+* mixed scalar/block : the mixed specialisations (block-valued matrix, scalar vectors reinterpreted as block vectors;
+  `Model/BlockValue.lean`) never read an output with a zero coefficient either, and the mixed residual is the mixed SpMV
+  with coefficients `(-1, 1)` on the right-hand side `f` (so `f` is the right-hand side and `x` the multiplied vector).
+
+Not proved here (see DESIGN.md §3 C07): that the block SpMV on reinterpreted vectors is the scalar SpMV of the unblocked
+matrix is C13's `unblock_spmv`; complex instantiations are tied in through the correspondence harness and the
+realification theorems of C13; Eigen / block_crs backends by correspondence only.
 -/
 namespace Amgcl.C07
 open Amgcl Finset
@@ -146,6 +152,30 @@ theorem ip_conj_linear (conj : K →+* K) (a : K) (x y : Vec K) :
     congr 1; apply List.map_congr_left; intro p _; simp; ring
 
 end ring
+
+section mixed
+set_option linter.unusedSectionVars false
+
+/-- mixed `spmv` (block matrix, scalar vectors) with `beta = 0` never reads the old output — any carrier -/
+theorem mixed_spmv_beta_zero_indep {K : Type} [Add K] [Mul K] [Sub K] [Neg K] [Zero K] [DecidableEq K] {b : Nat}
+    (α : K) (A : CRS (SMat K b b)) (x y y' : Vec K) : mixedSpmv α A x 0 y = mixedSpmv α A x 0 y' := by
+  simp [mixedSpmv, blockSpmv]
+
+/-- mixed `vmul` (vector of blocks, scalar vectors) with `beta = 0` never reads the old output — any carrier -/
+theorem mixed_vmul_zero_indep {K : Type} [Add K] [Mul K] [Sub K] [Neg K] [Zero K] [DecidableEq K] {b : Nat}
+    (a : K) (X : Vec (SMat K b b)) (y z z' : Vec K) : mixedVmul a X y 0 z = mixedVmul a X y 0 z' := by
+  simp [mixedVmul]
+
+/-- the mixed residual is `r = f` followed by `r = (-1)*A*x + 1*r` of the same mixed path: `f` is the right-hand side,
+`x` the multiplied vector (backend argument order `residual(rhs, A, x, res)`), for every block matrix and all sizes -/
+theorem mixed_residual_eq_spmv {K : Type} [CommRing K] [Nontrivial K] [DecidableEq K] {b : Nat}
+    (f : Vec K) (A : CRS (SMat K b b)) (x : Vec K) : mixedResidual f A x = mixedSpmv (-1) A x 1 f :=
+  mixedResidual_eq_mixedSpmv f A x
+
+-- non-vacuity / orientation: a 2x2 block [[1,2],[3,4]], f = (10,20), x = (1,1): r = f - A x = (7,13), not x - A f
+example : mixedResidual (b := 2) #[(10 : Int), 20] ⟨1, #[[(0, ⟨#[1, 2, 3, 4]⟩)]]⟩ #[1, 1] = #[7, 13] := by decide
+
+end mixed
 
 -- non-vacuity: the hypotheses are satisfiable on a concrete rectangular matrix with an empty row and a duplicate
 example : (⟨3, #[[(2, (5 : Int)), (0, 1), (2, -1)], [], [(1, 7)]]⟩ : CRS Int).WF := by
